@@ -19,7 +19,10 @@ component of the mechanism key (`multi-level/<escape:Exc|stale-hook|
 missing-hook|...>`), cf. DESIGN.md section 4 C08 N, F15, F16.  A second, much
 narrower signature (`set-equal-twin/...`) marks set operations whose argument
 is equal to, hash-equal to, but not identical with a stored element; it can
-only arise in the enumerated stratum 'e'.  Every other disagreement is keyed
+only arise in the enumerated stratum 'e'.  A third (`unread-default-self-assign/
+...`) marks the assignment of a trait's constant default object to the trait
+before the default was ever read; it is drawn only in the enumerated stratum
+'m' (the random generators reject it).  Every other disagreement is keyed
 `<complaint>/<what was observed>/after:<class of the last structural op>`.
 
 Histories are concrete, replayable operation lists (indices into the pool,
@@ -28,7 +31,7 @@ drop operations while the same key still fires.
 """
 import functools
 
-from traits.api import (HasTraits, Int, Instance, List, Dict, Set, Str,
+from traits.api import (Any, HasTraits, Int, Instance, List, Dict, Set, Str,
                         Undefined, Uninitialized)
 import traits.api as _tapi
 import traits.observation.api as oapi
@@ -46,7 +49,11 @@ META = {
              "observe(), apply_observers(compile_str/compile_expr)), judged per registered handler "
              "against the reachability model.  Strata: 't' acyclic pool graphs (random), 'c' cyclic pool "
              "graphs incl. cycles through the root (random), 'd' enumerated cycle-through-root patterns, "
-             "'e' enumerated discard/remove of an equal twin from an observed set.  distinct_nontrivial "
+             "'e' enumerated discard/remove of an equal twin from an observed set, 'm' enumerated "
+             "multiplicity-changing list events (one event with the same object removed and added a "
+             "different number of times, then one occurrence leaves) and observable constant defaults "
+             "(materialised by a read after observe(), replaced, or assigned to themselves unread).  "
+             "distinct_nontrivial "
              "counts distinct (stratum, step kind, method, expression shape, text/object form, all-equal "
              "flag, expected, observed) signatures of steps in which the model expected an event, an "
              "event was delivered, or a reachable observable was mutated silently (':' link, equal "
@@ -65,7 +72,9 @@ META = {
                   "dup_item_steps": 1200, "retired_container_checks": 6000,
                   "histories_acyclic": 500, "histories_cyclic": 200, "histories_directed": 200,
                   "multi_level_histories": 200, "cyclic_nonmulti_probe_checks": 30000,
-                  "object_form_registrations": 500, "text_form_registrations": 500},
+                  "object_form_registrations": 500, "text_form_registrations": 500,
+                  "reslice_ops": 90, "multiplicity_change_events": 50, "const_default_reads": 45,
+                  "histories_multiplicity": 90, "histories_const_default": 80},
         "thorough": {"evaluations": 6000000, "probe_matched": 200000, "probe_silent": 4000000,
                      "detached_silent": 80000, "container_events_matched": 240000,
                      "link_events_matched": 10000, "quiet_link_silent": 60000,
@@ -75,7 +84,9 @@ META = {
                      "retired_container_checks": 120000, "histories_acyclic": 20000,
                      "histories_cyclic": 6500, "histories_directed": 200,
                      "multi_level_histories": 2500, "cyclic_nonmulti_probe_checks": 600000,
-                     "object_form_registrations": 10000, "text_form_registrations": 10000},
+                     "object_form_registrations": 10000, "text_form_registrations": 10000,
+                     "reslice_ops": 1200, "multiplicity_change_events": 600, "const_default_reads": 600,
+                     "histories_multiplicity": 90, "histories_const_default": 80},
     },
     "assumptions": [
         "the reachability model (denotation of the mini-language over __dict__ values and the "
@@ -98,6 +109,10 @@ class Node(HasTraits):
     child = Instance("Node", link=True)
     other = Instance("Node", link=True)
     lazy = Instance("Node")
+    # link with a CONSTANT default: every history derives its own subclass whose
+    # `cdef` default is a shared node of that history (World.__init__), so the
+    # default that a first read materialises is itself an observable object
+    cdef = Instance("Node")
     children = List(Instance("Node"))
     cmap = Dict(Str, Instance("Node"))
     cset = Set(Instance("Node"))
@@ -138,10 +153,10 @@ class TwinNode(EqNode):
         return 1
 
 
-CLASS_TRAITS = ("ser", "value", "m1", "child", "other", "lazy", "children", "cmap", "cset",
+CLASS_TRAITS = ("ser", "value", "m1", "child", "other", "lazy", "cdef", "children", "cmap", "cset",
                 "trait_added", "trait_modified")
 CLASS_META = {"m1": ("tag",), "child": ("link",), "other": ("link",), "ser": ("transient",)}
-LINKS = ("child", "other", "lazy")
+LINKS = ("child", "other", "lazy", "cdef")
 CONTS = {"children": "list", "cmap": "dict", "cset": "set"}
 INTS = ("value", "m1")
 # traits the histories may add to single instances: name -> (kind, metadata names)
@@ -430,6 +445,8 @@ CATALOGUE = [
     "+link.value", "+link:+tag", "child.items.value", "child.value, other.*",
     "children.items.[value,m1]", "[child.children,other.children].items.value",
     "child.cmap.items.cset.items.value", "other.lazy.children.items.+tag",
+    "cdef.value", "cdef:value", "child.cdef.value", "cdef.children.items.value", "cdef.*",
+    "cdef.+tag", "[child,cdef].value", "children.items.cdef:value", "cdef.cdef.value",
 ]
 # expressions that repeat a trait name, so that a cycle through the root puts
 # one observable at two depths (the separate stratum of DESIGN 2.2)
@@ -594,9 +611,19 @@ class World:
         self.spec = spec
         self.sink = sink
         self.alleq = bool(spec["alleq"])
-        self.cls = TwinNode if spec["alleq"] == "twin" else EqNode if self.alleq else Node
+        base = TwinNode if spec["alleq"] == "twin" else EqNode if self.alleq else Node
         self.twin = False
-        self.pool = [self.cls(ser=i) for i in range(spec["npool"])]
+        # the shared node is the constant default of `cdef` for every node of this
+        # history: either a subclass overriding the inherited Instance trait's default by
+        # plain assignment, or a redefinition as Any(<instance>)
+        self.shared = base(ser=spec["npool"])
+        self.cflavour = spec.get("cflavour", "override")
+        self.cls = type(base)("HNode", (base,), {
+            "cdef": self.shared if self.cflavour == "override" else Any(self.shared),
+            "__module__": __name__})
+        self.pool = [self.cls(ser=i) for i in range(spec["npool"])] + [self.shared]
+        self.last_rep = None
+        self.selfdef = False       # sticky signature, see is_self_default
         self.added = {}            # id(node) -> {name: kind}
         self.retired = []          # [(label, kind, container)]
         self.regs = []
@@ -905,6 +932,12 @@ class World:
 
             def old_ok(o):
                 return isinstance(o, CONT_CLS[CONTS[name]]) and len(o) == 0
+        elif name == "cdef" and type(obj) is self.cls:
+            shared = self.shared
+            fire = (cur is not shared) and not _safe_eq(shared, cur)
+
+            def old_ok(o):
+                return o is shared
         elif name == "lazy":
             fire = not (self.alleq and isinstance(cur, Node))
 
@@ -943,6 +976,9 @@ class World:
             self._judge_trait(k, reg, what, obj, name, {0}, "default-read", None, None, "read", name)
             if fresh and key in m0[k].depths and name in obj.__dict__:
                 self.sink.count("default_reads")
+                if name == "cdef" and obj.__dict__["cdef"] is self.shared and max(m0[k].depths[key]) + 1 \
+                        < max(len(p) for p in reg.paths):
+                    self.sink.count("const_default_reads")
                 self._sig(reg, "read", name, "materialised", 0)
 
     # -- primitive: add_trait --------------------------------------------------
@@ -1015,6 +1051,10 @@ class World:
                                     "mutation (%s): before=%r after=%r" % (what, k, e, bad, before, after),
                                     {"step": what, "reg": k})
                 self.sink.count("container_events_matched")
+                if kind == "list":
+                    ra, ad = list(map(id, e.removed)), list(map(id, e.added))
+                    if any(ra.count(x) != ad.count(x) for x in set(ra) & set(ad)):
+                        self.sink.count("multiplicity_change_events")
                 self._sig(reg, "cont-" + kind, method, max(allowed), 1)
             elif key in m0[k].depths and changed:
                 self.sink.count("quiet_link_silent")
@@ -1124,12 +1164,24 @@ class World:
             return [t for t in out if t is not None]
         return []
 
+    def is_self_default(self, op):
+        """Structural signature `unread-default-self-assign`: the constant default
+        object itself is assigned to the trait before the default was ever read
+        (setattr materialises the default silently and sees no change)."""
+        if op[0] != "set" or op[2] != "cdef" or op[3] is None:
+            return False
+        a = self.node(op[1])
+        return (a is not None and type(a) is self.cls and "cdef" not in a.__dict__
+                and self.node(op[3]) is self.shared)
+
     def would_cycle(self, op):
         a = self.node(op[1])
         if a is None:
             return False
-        for t in self.targets(op):
-            n = self.node(t)
+        tg = [self.node(t) for t in self.targets(op)]
+        if op[0] == "read" and op[2] == "cdef" and "cdef" not in a.__dict__ and type(a) is self.cls:
+            tg.append(self.shared)             # the read will materialise the edge a -> shared
+        for n in tg:
             if n is None:
                 continue
             if n is a or self.reaches(n, a):
@@ -1145,6 +1197,8 @@ class World:
             {"l": "list-mutation", "d": "dict-mutation", "s": "set-mutation"}[k]
         if k == "set":
             _, _, tr, b = op
+            if self.is_self_default(op):
+                self.selfdef = True
             if not self.has(a, tr):
                 return
             if b is not None and self.node(b) is None:
@@ -1252,6 +1306,38 @@ class World:
                 return lambda c: c.sort(key=lambda n: -n.__dict__.get("ser", 0))
             if method == "clear":
                 return lambda c: c.clear()
+            if method == "reslice":
+                # slice assignment whose replacement is built from the removed objects
+                # with a different multiplicity
+                i, j = sorted((args[0] % (L + 1), args[1] % (L + 1)))
+                removed = list(c[i:j])
+                if not removed:
+                    return None
+                mode = args[2]
+                if mode == "dup":
+                    new = removed + removed
+                elif mode == "plus":
+                    new = removed + [removed[0]]
+                elif mode == "front":
+                    new = [removed[-1]] + removed
+                elif mode == "tail":
+                    new = removed[1:]
+                elif mode == "uniq":
+                    new = [x for q, x in enumerate(removed) if not any(x is y for y in removed[:q])]
+                else:
+                    new = [removed[0]] * (args[3] % 4)
+                self.last_rep = (removed + new)
+                self.sink.count("reslice_ops")
+                return lambda c: c.__setitem__(slice(i, j), new)
+            if method == "extfirst":
+                # extended-slice assignment that drops one object and repeats another
+                old = list(c[::2])
+                if len(old) < 2:
+                    return None
+                new = [old[0]] * len(old) if args[0] == "first" else [old[1]] + old[1:]
+                self.last_rep = old + new
+                self.sink.count("reslice_ops")
+                return lambda c: c.__setitem__(slice(None, None, 2), new)
             if method == "imul":
                 if L > 3:
                     return None
@@ -1277,6 +1363,13 @@ class World:
                 return lambda c: c.update(upd)
             if method == "clear":
                 return lambda c: c.clear()
+            if method == "respread":
+                # one update that stores the value of the first key under several keys
+                if not L:
+                    return None
+                k0 = next(iter(c))
+                upd = {kk: c[k0] for kk in (k0,) + KEYS[:2]}
+                return lambda c: c.update(upd)
             if method == "popitem":
                 return (lambda c: c.popitem()) if L else None
         elif k == "s":
@@ -1457,6 +1550,8 @@ def make_key(W, c):
         return "multi-level/" + c.what
     if W.twin:
         return "set-equal-twin/" + c.what
+    if W.selfdef:
+        return "unread-default-self-assign/" + c.what
     if c.kind:
         return "%s/%s/after:%s" % (c.what, c.kind, W.opclass)
     return "%s/after:%s" % (c.what, W.opclass)
@@ -1548,7 +1643,11 @@ def script(spec, actions):
              % ("TwinNode" if spec["alleq"] == "twin" else "EqNode" if spec["alleq"] else "Node",
                 spec["npool"], spec["npool"] - 1,
                 "; all nodes compare equal and hash equal" if spec["alleq"] == "twin" else
-                "; all nodes compare equal" if spec["alleq"] else "")]
+                "; all nodes compare equal" if spec["alleq"] else ""),
+             "n%d = shared node, the constant default of .cdef of n0..n%d (%s)"
+             % (spec["npool"], spec["npool"] - 1,
+                "class body `cdef = n%d` overriding Instance('Node')" % spec["npool"]
+                if spec.get("cflavour", "override") == "override" else "cdef = Any(n%d)" % spec["npool"])]
     for act in actions:
         k = act[0]
         if k == "observe":
@@ -1594,6 +1693,13 @@ def script(spec, actions):
             elif m == "setslice":
                 line = "%s[i:j] = %s   # i,j = sorted(%d,%d modulo len+1)" % (tgt, nn(args[2]), args[0],
                                                                             args[1])
+            elif m == "reslice":
+                line = ("%s[i:j] = <%s of the removed objects>   # i,j = sorted(%d,%d modulo len+1); "
+                        "dup: r+r, plus: r+[r[0]], front: [r[-1]]+r, tail: r[1:], uniq, first: [r[0]]*%d"
+                        % (tgt, args[2], args[0], args[1], args[3] % 4))
+            elif m == "extfirst":
+                line = "%s[::2] = %s   # old = %s[::2]" % (
+                    tgt, "[old[0]] * len(old)" if args[0] == "first" else "[old[1]] + old[1:]", tgt)
             elif m == "extslice":
                 line = "%s[::2] = <as many items as needed, cycled from %s>" % (tgt, nn(args[0]))
             elif m == "setdefault":
@@ -1629,9 +1735,9 @@ OP_TABLE = [("set", 16), ("setcont", 8), ("recont", 5), ("l", 24), ("d", 12), ("
             ("read", 6), ("add_trait", 4)]
 L_METHODS = [("append", 5), ("extend", 4), ("iadd", 1), ("insert", 3), ("setitem", 5), ("setslice", 3),
              ("extslice", 1), ("delitem", 3), ("delslice", 2), ("pop", 2), ("remove", 3), ("reverse", 1),
-             ("sort", 1), ("clear", 1), ("imul", 1)]
+             ("sort", 1), ("clear", 1), ("imul", 1), ("reslice", 5), ("extfirst", 1)]
 D_METHODS = [("set", 6), ("setdefault", 1), ("del", 3), ("pop", 2), ("update", 2), ("clear", 1),
-             ("popitem", 1)]
+             ("popitem", 1), ("respread", 1)]
 S_METHODS = [("add", 6), ("discard", 3), ("remove", 2), ("pop", 1), ("clear", 1), ("update", 2),
              ("ixor", 1), ("isub", 1), ("iand", 1)]
 
@@ -1694,7 +1800,10 @@ def gen_op(rng, W, names, cyclic):
         elif k == "recont":
             op = ["recont", a, pick_cont()]
         elif k == "read":
-            op = ["read", a, rng.choice(["lazy", "lazy", "children", "cmap", "cset", "child"])]
+            if "cdef" in names and rng.random() < 0.5:
+                op = ["read", a, "cdef"]
+            else:
+                op = ["read", a, rng.choice(["lazy", "lazy", "cdef", "children", "cmap", "cset", "child"])]
         elif k == "add_trait":
             if add_pref and rng.random() < 0.75:
                 op = ["add_trait", a, rng.choice(add_pref)]
@@ -1721,6 +1830,11 @@ def gen_op(rng, W, names, cyclic):
                 op = ["l", a, tr, m, rng.randrange(6), rng.randrange(6)]
             elif m == "imul":
                 op = ["l", a, tr, m, rng.choice([0, 2, 2])]
+            elif m == "reslice":
+                op = ["l", a, tr, m, rng.randrange(6), rng.randrange(6),
+                      rng.choice(["dup", "plus", "front", "tail", "uniq", "first"]), rng.randrange(4)]
+            elif m == "extfirst":
+                op = ["l", a, tr, m, rng.choice(["first", "shift"])]
             else:
                 op = ["l", a, tr, m]
         elif k == "d":
@@ -1746,6 +1860,8 @@ def gen_op(rng, W, names, cyclic):
                 op = ["s", a, tr, m, [pick_b(a, False) for _ in range(rng.randint(1, 3))]]
         if not cyclic and W.would_cycle(op):
             continue
+        if W.is_self_default(op):
+            continue                   # drawn in stratum 'm' only (open finding)
         return op
     return ["set", rng.randrange(n), "child", None]
 
@@ -1803,7 +1919,7 @@ def pick_ast(rng, ctx, cyc):
     return gen_expr(rng, maxdepth, cyc)
 
 
-def seed_ops(rng, paths, root, npool, cyc):
+def seed_ops(rng, paths, root, npool, cyc, pre=True):
     """Operations that build a chain of objects along one path of the
     denotation, so that registrations start on (and histories keep hitting)
     non-trivial reachable graphs."""
@@ -1828,6 +1944,17 @@ def seed_ops(rng, paths, root, npool, cyc):
             if arg == "lazy" and rng.random() < 0.4:
                 ops.append(["read", cur, "lazy"])
                 break
+            if arg == "cdef":
+                # constant default: mostly left to be materialised by a read AFTER observe()
+                r = rng.random()
+                if r < (0.15 if pre else 0.6):
+                    ops.append(["read", cur, "cdef"])
+                    cur = npool                    # index of the shared default node
+                    used.add(cur)
+                    i += 1
+                    continue
+                if r < 0.75:
+                    break
             n = nxt()
             ops.append(["set", cur, arg, n])
             cur = n
@@ -1859,18 +1986,19 @@ def random_history(ctx, rng, stratum):
     for k in range(nreg):
         root = 0 if (k == 0 or rng.random() < 0.5) else rng.randrange(npool)
         regs.append(make_reg(rng, pick_ast(rng, ctx, cyc), root, cyc))
-    spec = {"alleq": rng.random() < 0.25, "npool": npool, "regs": regs, "stratum": stratum}
+    spec = {"alleq": rng.random() < 0.25, "npool": npool, "regs": regs, "stratum": stratum,
+            "cflavour": rng.choice(["override", "any"])}
     names = set()
     for rs in regs:
         names_in(rs["ast"], names)
     plan = []                                  # ('op', op) | ('observe', k) | ('rand',)
 
-    def seeds(k):
+    def seeds(k, pre=True):
         rs = regs[k]
         paths = dedupe_paths(den(rs["ast"]))
         out = []
         for _ in range(rng.choice([0, 1, 1, 2])):
-            out += [("op", o) for o in seed_ops(rng, paths, rs["root"], npool, cyc)]
+            out += [("op", o) for o in seed_ops(rng, paths, rs["root"], npool, cyc, pre)]
         return out
     plan += seeds(0)
     plan += [("rand",)] * rng.randint(0, 3)
@@ -1879,9 +2007,9 @@ def random_history(ctx, rng, stratum):
     if nreg == 2:
         at = rng.randint(0, 6)
         body[at:at] = seeds(1) + [("observe", 1)]
-    elif rng.random() < 0.3:
+    elif rng.random() < (0.7 if names & {"cdef", "lazy"} else 0.3):
         at = rng.randint(0, len(body))
-        body[at:at] = seeds(0)
+        body[at:at] = seeds(0, False)
     plan += body
 
     def gen(W, i):
@@ -1895,8 +2023,79 @@ def random_history(ctx, rng, stratum):
             if not cyc and W.would_cycle(op):
                 return ["read", op[1], "child"]
             return op
+        if W.last_rep is not None:
+            # after a multiplicity-changing slice assignment: usually take one
+            # occurrence of an involved object out of the list again
+            objs, W.last_rep = W.last_rep, None
+            if rng.random() < 0.75:
+                for ai, n in enumerate(W.pool):
+                    c = n.__dict__.get("children")
+                    if c is None:
+                        continue
+                    idxs = [j for j, x in enumerate(c) if any(x is o for o in objs)]
+                    if idxs and any(c[j] is objs[0] for j in idxs):
+                        return ["l", ai, "children", rng.choice(["delitem", "pop", "remove"]),
+                                rng.choice(idxs)]
         return gen_op(rng, W, names, cyc)
     return spec, [], gen
+
+
+def multiplicity_cases():
+    """Stratum 'm' (enumerated): (1) one list event with the same object on both
+    sides a different number of times, then one occurrence leaves the list;
+    (2) a constant default that is itself observable, materialised by a read
+    after observe(), then replaced."""
+    out = []
+    lists = [
+        ("grow", [["setcont", 0, "children", [1, 2]]],
+         [["l", 0, "children", "reslice", 0, 1, "dup", 0], ["l", 0, "children", "delitem", 0]]),
+        ("shrink", [["setcont", 0, "children", [1, 1, 2]]],
+         [["l", 0, "children", "reslice", 0, 2, "tail", 0], ["l", 0, "children", "remove", 0]]),
+        ("plus-pop", [["setcont", 0, "children", [2, 1]]],
+         [["l", 0, "children", "reslice", 1, 2, "plus", 0], ["l", 0, "children", "pop", 2]]),
+        ("uniq", [["setcont", 0, "children", [1, 2, 1]]],
+         [["l", 0, "children", "reslice", 0, 3, "uniq", 0], ["l", 0, "children", "delitem", 0]]),
+        ("first3", [["setcont", 0, "children", [1, 2]]],
+         [["l", 0, "children", "reslice", 0, 2, "first", 3], ["l", 0, "children", "delslice", 0, 2]]),
+        ("ext-first", [["setcont", 0, "children", [1, 2, 3]]],
+         [["l", 0, "children", "extfirst", "first"], ["l", 0, "children", "delitem", 0]]),
+        ("ext-shift", [["setcont", 0, "children", [1, 2, 3, 2, 4]]],
+         [["l", 0, "children", "extfirst", "shift"], ["l", 0, "children", "delitem", 2]]),
+        ("imul-dup", [["setcont", 0, "children", [1, 1]]],
+         [["l", 0, "children", "imul", 2], ["l", 0, "children", "delslice", 0, 3]]),
+        ("sort-dup", [["setcont", 0, "children", [1, 2, 1]]],
+         [["l", 0, "children", "sort"], ["l", 0, "children", "delitem", 0]]),
+        ("reverse-dup", [["setcont", 0, "children", [1, 1, 2]]],
+         [["l", 0, "children", "reverse"], ["l", 0, "children", "remove", 2]]),
+    ]
+    lexprs = [parse_text(t) for t in ("children.items.value", "children:items:value",
+                                      "children.items.[value,m1]", "children.items.*")] \
+        + [OBJECT_ONLY[0]]
+    for ast in lexprs:
+        for vname, pre, post in lists:
+            for form in (("text", "expr", "paths") if not has_object_only(ast) else ("expr", "paths")):
+                out.append(("mult", ast, vname, form, "override", pre + [["observe", 0]] + post))
+    # constant default: shared node has pool index 5 (npool == 5)
+    consts = [
+        ("read-then-replace", [], [["read", 0, "cdef"], ["set", 5, "child", 1], ["set", 0, "cdef", 2]]),
+        ("replace-unread", [], [["set", 0, "cdef", 2], ["set", 0, "cdef", None]]),
+        ("read-before", [["read", 0, "cdef"]], [["set", 0, "cdef", 2], ["set", 0, "cdef", 5]]),
+        ("self-assign-unread", [], [["set", 0, "cdef", 5], ["set", 0, "cdef", 2]]),
+    ]
+    for text in ("cdef.value", "cdef:value", "cdef.*", "cdef.child.value", "cdef.+tag"):
+        for vname, pre, post in consts:
+            for form in ("text", "expr", "paths"):
+                for flav in ("override", "any"):
+                    out.append(("const", parse_text(text), vname, form, flav,
+                                pre + [["observe", 0]] + post))
+    for flav in ("override", "any"):
+        out.append(("const", parse_text("child.cdef.value"), "nested-read", "text", flav,
+                    [["set", 0, "child", 1], ["observe", 0], ["read", 1, "cdef"], ["set", 0, "child", 2],
+                     ["read", 2, "cdef"], ["set", 1, "cdef", None]]))
+        out.append(("const", parse_text("children.items.cdef:value"), "items-read", "expr", flav,
+                    [["setcont", 0, "children", [1, 2]], ["observe", 0], ["read", 2, "cdef"],
+                     ["read", 1, "cdef"], ["l", 0, "children", "delitem", 0]]))
+    return out
 
 
 def directed_cases():
@@ -1983,7 +2182,7 @@ def report(ctx, spec, actions, res, case_desc):
            "registrations": regs, "actions": small, "script": script(spec, small),
            "original_length": len(full), "complaint": res["what"], "info": res["info"],
            "case": case_desc}
-    ctx.violation(key, "%s\n  history: %s" % (res["msg"], "; ".join(script(spec, small)[1:])), wit)
+    ctx.violation(key, "%s\n  history: %s" % (res["msg"], "; ".join(script(spec, small)[2:])), wit)
 
 
 def self_check():
@@ -2025,6 +2224,26 @@ def run(ctx):
                 ctx.count("histories_directed")
                 if res["world"].multi:
                     ctx.count("multi_level_histories")
+                if res["key"]:
+                    report(ctx, spec, actions, res, cid)
+        finally:
+            ctx.end()
+    # ---- stratum m: multiplicity-changing list events, observable constant defaults ----
+    for mi, (grp, ast, vname, form, flav, acts) in enumerate(multiplicity_cases()):
+        if not ctx.mine(mi):
+            continue
+        cid = "m:%d" % mi
+        if not ctx.begin(cid, {"group": grp, "variant": vname, "form": form, "cdef": flav}):
+            continue
+        try:
+            for alleq in (False, True):
+                text = None if has_object_only(ast) else render(ast)
+                rs = {"root": 0, "ast": ast, "text": text, "form": form,
+                      "show": repr(text) if form == "text" else describe_ast(ast), "bound": False}
+                spec = {"alleq": alleq, "npool": 5, "regs": [rs], "stratum": "m", "cflavour": flav}
+                actions = [list(a) for a in acts]
+                res = execute(spec, actions, ctx)
+                ctx.count("histories_multiplicity" if grp == "mult" else "histories_const_default")
                 if res["key"]:
                     report(ctx, spec, actions, res, cid)
         finally:
